@@ -28,14 +28,14 @@ import (
 
 // ------------------------------------------------------------------ independent tag=value scanner (no quickfix)
 
-type wfield struct {
+type codecField struct {
 	tag string // text before the first '='
 	val []byte
 	raw []byte // whole field incl. SOH
 }
 
 // wireScan splits on SOH (a field following 212=<n>, n>0 is taken as tag= plus n bytes plus SOH). ok=false if malformed.
-func wireScan(b []byte) (fs []wfield, ok bool) {
+func wireScan(b []byte) (fs []codecField, ok bool) {
 	xml := 0
 	for len(b) > 0 {
 		var end int
@@ -56,7 +56,7 @@ func wireScan(b []byte) (fs []wfield, ok bool) {
 		if eq <= 0 {
 			return fs, false
 		}
-		f := wfield{tag: string(raw[:eq]), val: raw[eq+1 : end], raw: raw}
+		f := codecField{tag: string(raw[:eq]), val: raw[eq+1 : end], raw: raw}
 		fs = append(fs, f)
 		xml = 0
 		if f.tag == "212" {
@@ -149,7 +149,7 @@ type gInst struct {
 	entries [][]gFld
 }
 
-func mustInt(s string) int {
+func codecMustInt(s string) int {
 	v, err := strconv.Atoi(s)
 	if err != nil {
 		panic("bad int " + s)
@@ -168,9 +168,9 @@ func parseTemplate(t []string, p *int) []tItem {
 		*p++
 		switch {
 		case strings.HasPrefix(tok, "e:"):
-			items = append(items, tItem{tag: mustInt(tok[2:])})
+			items = append(items, tItem{tag: codecMustInt(tok[2:])})
 		case strings.HasPrefix(tok, "g:"):
-			items = append(items, tItem{tag: mustInt(tok[2:]), isGroup: true, sub: parseTemplate(t, p)})
+			items = append(items, tItem{tag: codecMustInt(tok[2:]), isGroup: true, sub: parseTemplate(t, p)})
 		default:
 			panic("template: bad token " + tok)
 		}
@@ -183,10 +183,10 @@ func parseInst(t []string, p *int) *gInst {
 	if !strings.HasPrefix(t[*p], "grp:") {
 		panic("instance: expected grp:")
 	}
-	g := &gInst{tag: mustInt(t[*p][4:])}
+	g := &gInst{tag: codecMustInt(t[*p][4:])}
 	*p++
 	g.tmpl = parseTemplate(t, p)
-	n := mustInt(t[*p])
+	n := codecMustInt(t[*p])
 	*p++
 	for i := 0; i < n; i++ {
 		if t[*p] != "[" {
@@ -197,7 +197,7 @@ func parseInst(t []string, p *int) *gInst {
 		for t[*p] != "]" {
 			if strings.HasPrefix(t[*p], "f:") {
 				q := strings.SplitN(t[*p], ":", 3)
-				e = append(e, gFld{tag: mustInt(q[1]), val: unhx(q[2])})
+				e = append(e, gFld{tag: codecMustInt(q[1]), val: unhx(q[2])})
 				*p++
 			} else {
 				sub := parseInst(t, p)
@@ -341,7 +341,7 @@ func sortedKeys(m map[int]*datadictionary.FieldDef) []int {
 	return ks
 }
 
-func csvInts(ks []int) string {
+func codecCsvInts(ks []int) string {
 	if len(ks) == 0 {
 		return "-"
 	}
@@ -375,7 +375,7 @@ func treeOfMap(m map[int]*datadictionary.FieldDef) string {
 
 func ddefT(id string) string {
 	d := dict(id)
-	return fmt.Sprintf("ddef t %s %s %s", id, csvInts(sortedKeys(d.Header.Fields)), csvInts(sortedKeys(d.Trailer.Fields)))
+	return fmt.Sprintf("ddef t %s %s %s", id, codecCsvInts(sortedKeys(d.Header.Fields)), codecCsvInts(sortedKeys(d.Trailer.Fields)))
 }
 
 // ddefA returns "" when the dictionary does not define the message type.
@@ -439,7 +439,7 @@ func sortedTagsOf(fm *quickfix.FieldMap) string {
 		ks = append(ks, int(t))
 	}
 	sort.Ints(ks)
-	return csvInts(ks)
+	return codecCsvInts(ks)
 }
 
 func (c *codecImpl) parseObs(mode string, wire []byte) string {
@@ -472,25 +472,25 @@ func (c *codecImpl) exec(op string) string {
 			c.m = quickfix.NewMessage()
 			return "ok"
 		case "set":
-			c.sec(w[1]).SetBytes(quickfix.Tag(mustInt(w[2])), unhx(w[3]))
+			c.sec(w[1]).SetBytes(quickfix.Tag(codecMustInt(w[2])), unhx(w[3]))
 			return "ok"
 		case "sets":
-			c.sec(w[1]).SetString(quickfix.Tag(mustInt(w[2])), string(unhx(w[3])))
+			c.sec(w[1]).SetString(quickfix.Tag(codecMustInt(w[2])), string(unhx(w[3])))
 			return "ok"
 		case "setf":
-			c.sec(w[1]).SetField(quickfix.Tag(mustInt(w[2])), quickfix.FIXBytes(unhx(w[3])))
+			c.sec(w[1]).SetField(quickfix.Tag(codecMustInt(w[2])), quickfix.FIXBytes(unhx(w[3])))
 			return "ok"
 		case "setw":
-			c.sec(w[1]).Set(rawWriter{quickfix.Tag(mustInt(w[2])), unhx(w[3])})
+			c.sec(w[1]).Set(rawWriter{quickfix.Tag(codecMustInt(w[2])), unhx(w[3])})
 			return "ok"
 		case "seti":
-			c.sec(w[1]).SetInt(quickfix.Tag(mustInt(w[2])), mustInt(w[3]))
+			c.sec(w[1]).SetInt(quickfix.Tag(codecMustInt(w[2])), codecMustInt(w[3]))
 			return "ok"
 		case "setb":
-			c.sec(w[1]).SetBool(quickfix.Tag(mustInt(w[2])), w[3] == "y")
+			c.sec(w[1]).SetBool(quickfix.Tag(codecMustInt(w[2])), w[3] == "y")
 			return "ok"
 		case "rm":
-			c.sec(w[1]).Remove(quickfix.Tag(mustInt(w[2])))
+			c.sec(w[1]).Remove(quickfix.Tag(codecMustInt(w[2])))
 			return "ok"
 		case "clear":
 			c.sec(w[1]).Clear()
@@ -515,15 +515,15 @@ func (c *codecImpl) exec(op string) string {
 		case "rebuild":
 			return "bytes " + hx(quickfix.VerifBuildWithBodyBytes(c.m, quickfix.VerifBodyBytes(c.m)))
 		case "has":
-			return yn(c.sec(w[1]).Has(quickfix.Tag(mustInt(w[2]))))
+			return yn(c.sec(w[1]).Has(quickfix.Tag(codecMustInt(w[2]))))
 		case "get":
-			v, err := c.sec(w[1]).GetBytes(quickfix.Tag(mustInt(w[2])))
+			v, err := c.sec(w[1]).GetBytes(quickfix.Tag(codecMustInt(w[2])))
 			if err != nil {
 				return fmt.Sprintf("err %d", err.RejectReason())
 			}
 			return "val " + hx(v)
 		case "geti":
-			v, err := c.sec(w[1]).GetInt(quickfix.Tag(mustInt(w[2])))
+			v, err := c.sec(w[1]).GetInt(quickfix.Tag(codecMustInt(w[2])))
 			if err != nil {
 				return fmt.Sprintf("err %d", err.RejectReason())
 			}
@@ -532,7 +532,7 @@ func (c *codecImpl) exec(op string) string {
 			return "tags " + sortedTagsOf(c.sec(w[1]))
 		case "getgrp":
 			p := 3
-			return obsGroup(c.sec(w[1]), mustInt(w[2]), parseTemplate(w, &p))
+			return obsGroup(c.sec(w[1]), codecMustInt(w[2]), parseTemplate(w, &p))
 		case "ddef":
 			// the dictionary content is an input of the model; here it is checked against the loaded dictionary
 			var want string
@@ -555,7 +555,7 @@ func (c *codecImpl) exec(op string) string {
 					t = append(t, i)
 				}
 			}
-			return "hdr " + csvInts(h) + " trl " + csvInts(t)
+			return "hdr " + codecCsvInts(h) + " trl " + codecCsvInts(t)
 		}
 		panic("bad op " + op)
 	})
